@@ -56,6 +56,10 @@ class AddImplicitCastVisitor(Visitor.DefaultVisitor):
         assert node
         assert isinstance(node, ast.ConstructPrimitiveExpression)
 
+        # The arguments are expressions of their own
+        for p in node.GetArguments():
+            self.v_Generic(p, ctx)
+
         # The primitive type of each argument must be the same as the result
         resultType = node.GetType().GetComponentType()
 
@@ -77,6 +81,10 @@ class AddImplicitCastVisitor(Visitor.DefaultVisitor):
 
     def v_CallExpression(self, node, ctx=None):
         assert isinstance(node, ast.CallExpression)
+
+        # The arguments are expressions of their own
+        for arg in node.GetArguments():
+            self.v_Generic(arg, ctx)
 
         # The primitive type of each argument must be the same as the argument type
         argumentTypes = node.function.GetArgumentTypes().values()
